@@ -37,3 +37,15 @@ Example C09_flat_nonvacuous :
   let ts := [TLeaf sp (LLit false [97%N]); TLeaf sp (LTree true); TLeaf sp (LZom false)] in
   forallb is_leaf ts = true /\ is_exhaustive (TCat sp ts) = Ok Always /\ adjacent_boundary ts = None /\ adj_zom ts = false /\ last_not_sep ts.
 Proof. cbv zeta. repeat split; vm_compute; reflexivity. Qed.
+
+From WaxModel Require Import Parse Query Glob.
+From WaxProofs Require Import BuiltExhaust.
+
+(* for the flat globs that build the side conditions are discharged by the rule checker (no adjacent boundaries) and the parser
+   (no adjacent zero-or-more wildcards): what remains is the known class trailing_boundary *)
+Theorem C09_built_flat_globs_always_sound : forall orbit e sp ts r p z,
+  build e = BuildOk (TCat sp ts) r -> forallb is_leaf ts = true ->
+  is_exhaustive (TCat sp ts) = Ok Always -> last_not_sep ts -> nosep z = true ->
+  Lang orbit (TCat sp ts) p -> Lang orbit (TCat sp ts) (p ++ SEP :: z).
+Proof. exact built_flat_always_sound. Qed.
+Print Assumptions C09_built_flat_globs_always_sound.
